@@ -215,6 +215,19 @@ def run(ctx):
         for (idx, bad) in h.problems:
             ctx.add("oracle", "forest-inconsistent:item%d" % h.items[idx][0], "after %s: %s" % (h.items[idx], "; ".join(bad[:3])),
                     {"items": h.items[: idx + 1], "problems": bad[:10]})
+        if not h.problems:
+            # a member exchanged for its equal-UUID twin of a deep copy by one in-place operator (both iteration orders), and back
+            import copy
+            for n in h.by_kind["IR"]:
+                try:
+                    cp = copy.deepcopy(h.w.obj[n])
+                except Exception:  # noqa: BLE001
+                    continue
+                ctx.count("twin_swaps_by_one_operator", world.twin_swaps(
+                    g, h.w.obj[n], cp, ctx.rng, lambda p, h=h: ctx.add("oracle", "twin-swap-forest", p, {"items": h.items}), cache=False))
+                bad = world.oracle_forest(h.w)
+                if bad:
+                    ctx.add("oracle", "twin-swap-forest", "after the twin swaps and the moves back: " + "; ".join(bad[:3]), {"items": h.items})
     default_args_oracle(ctx, g)
     ctor_copy_oracle(ctx, g)
     aggregate_kinds_oracle(ctx, g)
